@@ -2,9 +2,29 @@
 From stdpp Require Import gmap list.
 From Coq Require Import NArith ZArith.
 From VFS Require Import Core.Types Core.Prog Core.Calls Base.MemFS Base.Handles Base.Store Layer.VfsPath
-  Layer.Overlay Proofs.MemProofs Proofs.MemCalls Proofs.MemPublic Proofs.WalkProofs Proofs.OvlProofs Proofs.OvlList.
+  Layer.Overlay Proofs.MemProofs Proofs.MemCalls Proofs.MemPublic Proofs.WalkProofs Proofs.OvlProofs Proofs.OvlList Path.Str Path.StrChild.
 
 Notation mstate := (gmap (list (list N)) memfile).
+
+(** the tie between the listing SCAN of the code and the component-level listing of the model: on the
+    keys MemoryFS stores (rendered component lists, components without '/'), "starts with
+    [path ++ "/"] and the rest holds no further '/'" selects exactly the keys [p ++ [n]] and yields
+    [n] - what [child_of] computes - for every directory, every key and every name, names that are
+    prefixes or extensions of each other included *)
+Theorem C05_listing_scan_is_child_of : forall (p k : list (list N)) (n : list N),
+  Forall (fun c => Str.has_slash N.eqb 47%N c = false) p ->
+  Forall (fun c => Str.has_slash N.eqb 47%N c = false) k ->
+  str_child N.eqb 47%N (Str.render 47%N p) (Str.render 47%N k) = Some n <->
+  (child_of p k = Some n /\ Str.has_slash N.eqb 47%N n = false).
+Proof.
+  intros p k n Hp Hk. rewrite child_of_spec.
+  exact (str_child_spec N.eqb 47%N N.eqb_spec p k n Hp Hk).
+Qed.
+Example C05_listing_scan_example :
+  str_child N.eqb 47%N [47; 97]%N [47; 97; 47; 120]%N = Some [120%N] /\
+  str_child N.eqb 47%N [47; 97]%N [47; 97; 46; 98]%N = None /\
+  str_child N.eqb 47%N [47; 97]%N [47; 97; 47; 120; 47; 121]%N = None.
+Proof. vm_compute. repeat split; reflexivity. Qed.
 
 (** a path exists iff its parent lists its name - for every path, absent ones and names that
     are prefixes of each other included: the listing holds exactly the names n with p ++ [n] present *)
@@ -89,6 +109,8 @@ Theorem C05_overlay_listing_matches_exists : forall hs lg ft (s0 s1 : mstate) (p
       run bhandler (ovl_exists (v0, []) [(v1, [])] (p ++ [n])) (mstore2 s0 s1 hs lg ft) = (mstore2 s0 s1 hs lg ft, Ok true).
 Proof. exact listing_matches_exists. Qed.
 
+Print Assumptions C05_listing_scan_is_child_of.
+Print Assumptions C05_listing_scan_example.
 Print Assumptions C05_exists_iff_listed.
 Print Assumptions C05_listed_once.
 Print Assumptions C05_exists.
